@@ -1,6 +1,7 @@
 """AsyncBackgroundBatcher: program generator, real execution under a virtual clock, model line,
 property monitors (C04, C09, C10, C11). Shared by the four checks (and C15)."""
 import asyncio
+import random
 
 from ..core.vtime import VLoop, TICK
 
@@ -204,7 +205,8 @@ def run_real(cfg, ins, plan, make_batcher=None):
             elif i[0] == 'x':
                 for _ in range(i[3] if len(i) > 3 else 0):
                     await asyncio.sleep(0)
-                tasks[i[2]].cancel()
+                if i[2] in tasks:          # a caller id that never called: the cancel is a no-op (C09 variants)
+                    tasks[i[2]].cancel()
             elif bt is not None:
                 bt.max_batch_size = i[2]
         await asyncio.sleep(HORIZON * TICK)
@@ -247,6 +249,81 @@ def project(evs, prop):
         return ([e[3] for e in c if e[0] == 'batch'],                        # batch contents in order
                 sorted((e[2], e[3]) for e in c if e[0] == 'done'))
     return c
+
+
+# ------------------------------------------------------------------ cancel variants (C09, the theorem's shape)
+GHOST = 900
+
+
+def gen_variant(rng):
+    """A c09-flavoured program of calls only; the cancellations are chosen by `run_variant` from what a first run
+    shows (so that they land on the very instants at which answers are produced)."""
+    cfg, ins, plan = gen(rng, 'c09')
+    calls = [i for i in ins if i[0] == 'c']
+    return cfg, calls, plan, rng.getrandbits(32)
+
+
+def variant_ops(cfg, calls, plan, pick):
+    """Run the calls alone, then choose 1..3 victims and, for each, an instant among: the instant it is answered
+    (and one tick either side), the instant its batch starts, the instants of the batch function's actions, its
+    own call instant; each with 0..3 loop iterations of delay."""
+    rng = random.Random(pick)
+    base = run_real(cfg, calls, plan)
+    done = {e[2]: e[1] for e in base if e[0] == 'done'}
+    marks = sorted({e[1] for e in base if e[0] in ('batch', 'act')})
+    tcall = {i[2]: i[1] for i in calls}
+    victims = rng.sample(sorted(tcall), min(len(tcall), rng.randint(1, 3)))
+    xs = []
+    for v in victims:
+        cand = [tcall[v]]
+        if v in done:
+            cand += [done[v]] * 4 + [done[v] + 1, max(tcall[v], done[v] - 1)]
+        cand += [m for m in marks if m >= tcall[v]][:6]
+        t = rng.choice(cand)
+        k = rng.choice([1, 2, 3]) if t == tcall[v] else rng.choice([0, 1, 2, 3])
+        xs.append(('x', t, v, k))
+    return base, xs
+
+
+def merge_ops(calls, xs):
+    ins = list(calls) + list(xs)
+    ins.sort(key=lambda i: (i[1], 0 if i[0] == 'm' else 1 if i[0] == 'c' else 2))
+    return ins
+
+
+def run_variant(cfg, calls, plan, pick):
+    """The two runs the theorem C09_cancellations_invisible compares: the victims cancelled at the chosen instants,
+    and the same program with those cancellations aimed at caller ids that never called.  Returns
+    (xs, with, without)."""
+    _, xs = variant_ops(cfg, calls, plan, pick)
+    ghosts = [('x', x[1], GHOST + j, x[3]) for j, x in enumerate(xs)]
+    a = run_real(cfg, merge_ops(calls, xs), plan)
+    b = run_real(cfg, merge_ops(calls, ghosts), plan)
+    return xs, a, b
+
+
+def monitor_variant(calls, xs, a, b):
+    """C09: every caller that was not cancelled gets, in the run with the cancellations, exactly the outcome it
+    gets in the run without them, and nobody stays pending."""
+    bad = []
+    victims = {x[2] for x in xs}
+    da = {e[2]: e[3] for e in a if e[0] == 'done'}
+    db = {e[2]: e[3] for e in b if e[0] == 'done'}
+    pa = sorted(e[1] for e in a if e[0] == 'pending')
+    pb = sorted(e[1] for e in b if e[0] == 'pending')
+    if pb:
+        return bad                      # the baseline itself leaves callers pending: C04's business, not judged here
+    for i in calls:
+        cid = i[2]
+        if cid in victims:
+            continue
+        if cid in pa:
+            bad.append(('C09', 'pending-forever', f'caller {cid} (key {i[4]}) never completes when {sorted(victims)} are '
+                                                  f'cancelled at {xs}; without the cancellations it gets {db.get(cid)}'))
+        elif da.get(cid) != db.get(cid):
+            bad.append(('C09', 'outcome-changed', f'caller {cid} (key {i[4]}) gets {da.get(cid)} when {sorted(victims)} are '
+                                                  f'cancelled at {xs}, and {db.get(cid)} without the cancellations'))
+    return bad
 
 
 # ------------------------------------------------------------------ chained re-requests (C11)
